@@ -140,19 +140,21 @@ func (n *NSQD) lookupLoop() {
 				// notify all nsqlookupds that a new channel exists, or that it's removed
 				branch = "channel"
 				channel := val
-				if channel.Exiting() {
-					cmd = nsq.UnRegister(channel.topicName, channel.name)
-				} else {
+				// decide from the current state of the name, not from this (possibly
+				// already replaced) object: notifications are delivered in no particular order
+				if n.lookupHasChannel(channel.topicName, channel.name) {
 					cmd = nsq.Register(channel.topicName, channel.name)
+				} else {
+					cmd = nsq.UnRegister(channel.topicName, channel.name)
 				}
 			case *Topic:
 				// notify all nsqlookupds that a new topic exists, or that it's removed
 				branch = "topic"
 				topic := val
-				if topic.Exiting() {
-					cmd = nsq.UnRegister(topic.name, "")
-				} else {
+				if n.lookupHasTopic(topic.name) {
 					cmd = nsq.Register(topic.name, "")
+				} else {
+					cmd = nsq.UnRegister(topic.name, "")
 				}
 			}
 
@@ -185,6 +187,29 @@ func (n *NSQD) lookupLoop() {
 
 exit:
 	n.logf(LOG_INFO, "LOOKUP: closing")
+}
+
+// lookupHasTopic reports whether a topic of that name currently exists and is not being deleted
+func (n *NSQD) lookupHasTopic(topicName string) bool {
+	n.RLock()
+	t, ok := n.topicMap[topicName]
+	n.RUnlock()
+	return ok && !t.Exiting()
+}
+
+// lookupHasChannel reports whether a channel of that name currently exists, in a topic
+// that exists, and neither is being deleted
+func (n *NSQD) lookupHasChannel(topicName string, channelName string) bool {
+	n.RLock()
+	t, ok := n.topicMap[topicName]
+	n.RUnlock()
+	if !ok || t.Exiting() {
+		return false
+	}
+	t.RLock()
+	c, ok := t.channelMap[channelName]
+	t.RUnlock()
+	return ok && !c.Exiting()
 }
 
 func in(s string, lst []string) bool {
